@@ -195,7 +195,7 @@ def run(ck):
                     objs.append(_gen_object(rng, dict(order=(n, m), method=meth, em_running=emr)))
 
     n_cross = 0
-    worst = dict(exact=0.0, exp=0.0)
+    worst = dict(exact=0.0, exp=0.0, exp4=0.0)
     for p, st, out in pmap(_eval_object, objs, timeout=ck.n(900, 7200)):
         if st != "ok":
             ck.case(("obj", _okey(p), p["method"]), nontrivial=False)
@@ -286,7 +286,8 @@ def run(ck):
                     ck.hit("expanded_bound")
                     ck.case(("exp",) + base + (lam, c, round(row["L"], 3)), nontrivial=True, sample=dict(kind="expanded", order=p["order"], nf=p["nf"], lam=lam, L=row["L"], dev=dev, allowed=bound, first_neglected_order=k))
                     if np.isfinite(dev) and dev <= bound + floor:
-                        worst["exp"] = max(worst["exp"], dev / bound)
+                        wk = "exp4" if (p["order"][0] == 4 and k == 6) else "exp"
+                        worst[wk] = max(worst[wk], dev / bound)
                     if not np.isfinite(dev) or dev > bound + floor:
                         vkey = f"C15/expanded/{'a_s' if c == 0 else 'a_em'}/{ok_key}"
                         if c == 0 and p["order"][0] == 4 and k == 6:
@@ -369,4 +370,4 @@ def run(ck):
         ck.hit("oracle_crosscheck_mpmath")
         if max(abs(a1 - a2) / np.abs(a2)) > 1e-10:
             ck.inconclusive(f"scipy and mpmath oracles disagree: {a1} vs {a2}")
-    ck.note(worst_rel_exact=worst["exact"], worst_held_expanded_dev_over_allowed=worst["exp"], tau_sensitive_cases=n_cross, oracle_crosschecks=nx)
+    ck.note(worst_rel_exact=worst["exact"], worst_held_expanded_dev_over_allowed_orders123_and_coupled=worst["exp"], worst_held_expanded_dev_over_allowed_order4=worst["exp4"], tau_sensitive_cases=n_cross, oracle_crosschecks=nx)
